@@ -746,19 +746,22 @@ def make_runner(case, info, n_keys, n_probe, with_grad=True):
         return jnp.asarray(v, dtype=jnp.float32)
 
     def run(keys, theta, d):
-        def one(k):
-            o = prog.jvp_estimate(k, duals(theta, d))
+        # one trace for the N keys with direction d and for the unit directions at keys[0]
+        k0 = keys[0]
+        eye = jnp.eye(nargs, dtype=jnp.float32)
+        all_keys = jnp.concatenate([keys, jnp.stack([k0] * nargs)])
+        all_dirs = jnp.concatenate([jnp.broadcast_to(d, (keys.shape[0], nargs)), eye])
+
+        def one(k, dd):
+            o = prog.jvp_estimate(k, duals(theta, dd))
             return f32(o.primal), f32(o.tangent)
 
-        primal, tangent = jax.vmap(one)(keys)
-        out = {"primal": primal, "tangent": tangent}
-        k0 = keys[0]
+        primal, tangent = jax.vmap(one)(all_keys, all_dirs)
+        n = keys.shape[0]
+        out = {"primal": primal[:n], "tangent": tangent[:n], "units": tangent[n:], "unit_primals": primal[n:]}
         zero = jnp.zeros_like(d)
         if probe is not None:
             out["probe"] = jax.vmap(lambda k: f32(probe.jvp_estimate(k, duals(theta, zero)).primal))(keys[:n_probe])
-        # unit directions at the first key (one trace: vmap over the direction matrix)
-        eye = jnp.eye(nargs, dtype=jnp.float32)
-        out["units"] = jax.vmap(lambda dd: f32(prog.jvp_estimate(k0, duals(theta, dd)).tangent))(eye)
         args = tuple(theta[i] for i in range(nargs))
         if with_grad:
             out["grad"] = jnp.stack([f32(g) for g in prog.grad_estimate(k0, args)])
@@ -876,6 +879,8 @@ def check_case(case, ctx=None):
         est = float(out["estimate"])
         big = max(1.0, float(np.max(np.abs(units))), abs(float(tangent[0])))
         _close(est, primal[0], 1 + M, f"{where}: Expectation.estimate vs jvp_estimate primal (same key)", "estimate-vs-jvp", case, rtol=1e-5, atol=1e-5)
+        for i in range(nargs):
+            _close(out["unit_primals"][i], primal[0], 1 + M, f"{where}: primal with unit direction {i} vs primal with direction dir (same key)", "primal-depends-on-tangent", case, rtol=1e-5, atol=1e-5)
         if with_grad:
             grad = np.asarray(out["grad"], dtype=np.float64)
             for i in range(nargs):
@@ -1047,6 +1052,15 @@ def case_strategy(draw, focus, n_points):
     case["body"] = lin(tnames + all_feats + all_feats, lo, 4)
     if len(prims) == 2 and draw(st.booleans()):
         case["body"].append([draw(coef), ["m", names[0][0], names[1][-1]]])
+    if draw(st.integers(0, 9)) < 8:  # make the case non-trivial by construction
+        allp = prims + [b["prim"] for b in (case["cond"]["t"], case["cond"]["f"]) if b.get("prim")] if case.get("cond") else prims
+        affs = [a for p in allp for a in p["u"]]
+        if affs and not any(x != 0.0 for a in affs for x in a["th"]):
+            affs[0]["th"][0] = draw(coef)
+        if not case.get("cond") and not case.get("post_cost") and not case.get("mid_cost"):
+            case["post_cost"] = lin(tnames + all_feats, 1, 2)
+        if not uses(case, lambda v: v.startswith("t")):
+            case["body"].append([draw(coef), ["m", draw(st.sampled_from(tnames)), draw(st.sampled_from(all_feats))]])
     pts = []
     for _ in range(n_points):
         pts.append(
